@@ -76,6 +76,20 @@ func (e *Env) lookup(name string) (Val, bool) {
 	if v, ok := e.vars[name]; ok {
 		return v, true
 	}
+	// param0, param1, ...: the parameters by position (receiver first), so that a contract survives the
+	// renaming of a parameter
+	if strings.HasPrefix(name, "param") && e.fr != nil {
+		if i, err := strconv.Atoi(name[5:]); err == nil {
+			fn := e.fr.fn
+			if e.x != nil && e.fr.parent == nil && e.x.top != nil {
+				fn = e.x.top
+			}
+			if i >= 0 && i < len(fn.Params) {
+				return e.lookup(fn.Params[i].Name())
+			}
+			return nil, false
+		}
+	}
 	switch name {
 	case "true":
 		return Bool{"true"}, true
